@@ -83,6 +83,7 @@ REVERTS = [
     ("revert-D8-5d92ec9", ["C11"], "5d92ec9"), ("revert-D9-0f3e06f", ["C11"], "0f3e06f"),
     ("revert-D4-3277a4a", ["C12"], "3277a4a"), ("revert-D11-00c2acb", ["C13"], "00c2acb"),
     ("revert-D12-b9c77fe", ["C13"], "b9c77fe"), ("revert-D7-b0c00a0", ["C05"], "b0c00a0"),
+    ("revert-D17-f2c22b2", ["C08"], "f2c22b2"),
 ]
 
 
